@@ -91,6 +91,16 @@ impl G {
         }
     }
 
+    /// a String: the attribute `s` of some user, or a literal
+    fn string(&mut self, d: u32) -> J {
+        if self.chance(0.55) {
+            let u = self.user(d.min(1));
+            get(u, "s")
+        } else {
+            lit_str(*self.pick(&["k", "z", "kk", ""]))
+        }
+    }
+
     fn long(&mut self, d: u32) -> J {
         match self.rng.gen_range(0..if d == 0 { 5 } else { 14 }) {
             0 => lit_long(*self.pick(&[0, 1, 2, 5, 10, -1, i64::MAX, i64::MIN, 3])),
@@ -113,9 +123,9 @@ impl G {
             }
             7 => {
                 let u = self.user(d - 1);
-                let k = if self.chance(0.85) { "k" } else { "z" };
-                self.need(bin("hasTag", u.clone(), lit_str(k)));
-                bin("getTag", u, lit_str(k))
+                let k = if self.chance(0.6) { lit_str(if self.chance(0.85) { "k" } else { "z" }) } else { self.string(d - 1) };
+                self.need(bin("hasTag", u.clone(), k.clone()));
+                bin("getTag", u, k)
             }
             8 => {
                 self.view_only = true;
@@ -251,11 +261,27 @@ impl G {
             }
             21 => {
                 let u = self.user(d - 1);
-                bin("hasTag", u, lit_str(*self.pick(&["k", "z"])))
+                let k = if self.chance(0.5) { lit_str(*self.pick(&["k", "z"])) } else { self.string(d - 1) };
+                bin("hasTag", u, k)
             }
-            22 => {
+            22 if self.chance(0.4) => {
                 let s = if self.chance(0.5) { self.set_long(d - 1) } else { self.set_user(d - 1) };
                 json!(["isEmpty", s])
+            }
+            22 => {
+                let a = self.string(d - 1);
+                if self.chance(0.5) {
+                    let b = self.string(d - 1);
+                    bin("eq", a, b)
+                } else {
+                    let pat: Vec<J> = match self.rng.gen_range(0..4) {
+                        0 => vec![json!(107), json!(-1)],
+                        1 => vec![json!(-1)],
+                        2 => vec![json!(-1), json!(122)],
+                        _ => vec![json!(107)],
+                    };
+                    json!(["like", a, pat])
+                }
             }
             _ => {
                 let dd = d.max(1);
